@@ -299,3 +299,150 @@ Proof.
   - intros [H _]. apply (msubb_complete atom_eqb) in H. vm_compute in H. discriminate.
   - intro H. apply (msubb_complete atom_eqb) in H. vm_compute in H. discriminate.
 Qed.
+
+(* ================================================================== the slot rule (one time, its volume groups) *)
+Definition nb (b : Z) (ws : list write) : nat :=
+  length (filter (fun w => match w with WBits val _ => Z.land val b =? b | WFile _ _ => false end) ws).
+Definition wfile_pairs (ws : list write) : list (Z * Z) :=
+  flat_map (fun w => match w with WFile f v => [(f, v)] | WBits _ _ => [] end) ws.
+Definition sample_pairs (ss : list hsample) : list (Z * Z) := map (fun s => (hd 0 (hs_file s), hs_vol s)) ss.
+Definition group_pairs (vgs : list (Z * list hnote)) : list (Z * Z) :=
+  flat_map (fun vg => map (fun f => (f, fst vg)) (group_files (snd vg))) vgs.
+Definition need (g : list hnote) : nat :=
+  (Nat.max (count_bit 2 g) (Nat.max (count_bit 4 g) (count_bit 8 g)) + length (group_files g))%nat.
+Definition total_need (vgs : list (Z * list hnote)) : nat := fold_right Nat.add O (map (fun vg => need (snd vg)) vgs).
+Definition total_bit (b : Z) (vgs : list (Z * list hnote)) : nat :=
+  fold_right Nat.add O (map (fun vg => count_bit b (snd vg)) vgs).
+
+Lemma nb_app : forall b w1 w2, nb b (w1 ++ w2) = (nb b w1 + nb b w2)%nat.
+Proof. intros. unfold nb. now rewrite filter_app, app_length. Qed.
+Lemma wfile_pairs_app : forall w1 w2, wfile_pairs (w1 ++ w2) = wfile_pairs w1 ++ wfile_pairs w2.
+Proof. intros. unfold wfile_pairs. now rewrite flat_map_app. Qed.
+
+Lemma val_bits : forall (c f w : bool),
+  let val := (if c then 2 else 0) + (if f then 4 else 0) + (if w then 8 else 0) in
+  (Z.land val 2 =? 2) = c /\ (Z.land val 4 =? 4) = f /\ (Z.land val 8 =? 8) = w.
+Proof. destruct c, f, w; vm_compute; auto. Qed.
+
+(* the default loop: min(k, free) notes are written; bit b is written min(count, free) times; nothing but WBits *)
+Lemma default_loop_spec : forall k c f w free vol ws fr,
+  default_loop k c f w free vol = (ws, fr) ->
+  length ws = Nat.min k free /\ fr = (free - length ws)%nat /\ wfile_pairs ws = [] /\
+  nb 2 ws = Nat.min (Nat.min k free) c /\ nb 4 ws = Nat.min (Nat.min k free) f /\ nb 8 ws = Nat.min (Nat.min k free) w.
+Proof.
+  induction k; simpl; intros c f w free vol ws fr H.
+  - inversion H; subst. simpl. repeat split; try reflexivity; lia.
+  - destruct free.
+    + inversion H; subst. simpl. repeat split; try reflexivity; lia.
+    + destruct (default_loop k (Nat.pred c) (Nat.pred f) (Nat.pred w) free vol) as [ws' fr'] eqn:E.
+      inversion H; subst. clear H. specialize (IHk _ _ _ _ _ _ _ E) as (L & F & P & B2 & B4 & B8).
+      destruct (val_bits (pos c) (pos f) (pos w)) as (V2 & V4 & V8).
+      unfold nb in *. simpl. rewrite V2, V4, V8. rewrite L.
+      repeat split; try lia; try assumption.
+      * destruct c; simpl in *; lia.
+      * destruct f; simpl in *; lia.
+      * destruct w; simpl in *; lia.
+Qed.
+
+Lemma file_loop_len : forall files free off vol ws ss fr,
+  file_loop files free off vol = (ws, ss, fr) ->
+  length ws = Nat.min (length files) free /\ fr = (free - length ws)%nat /\ nb 2 ws = O /\ nb 4 ws = O /\ nb 8 ws = O.
+Proof.
+  induction files; simpl; intros free off vol ws ss fr H.
+  - inversion H; subst. simpl. repeat split; lia.
+  - destruct free.
+    + inversion H; subst. simpl. repeat split; lia.
+    + destruct (file_loop files free off vol) as [[ws' ss'] fr'] eqn:E. inversion H; subst. clear H.
+      specialize (IHfiles _ _ _ _ _ _ E) as (L & F & B2 & B4 & B8). unfold nb in *. simpl. rewrite L. repeat split; try lia; assumption.
+Qed.
+
+(* when the files fit they are all written, in order, and nothing overflows *)
+Lemma file_loop_fits : forall files free off vol, (length files <= free)%nat ->
+  file_loop files free off vol = (map (fun x => WFile x (Z.max vol 0)) files, [], (free - length files)%nat).
+Proof.
+  induction files; simpl; intros; [now rewrite Nat.sub_0_r|].
+  destruct free; [lia|]. rewrite IHfiles by lia. reflexivity.
+Qed.
+
+(* whatever happens, what is written or sampled is a prefix of the files: nothing is invented *)
+Lemma file_loop_prefix : forall files free off vol ws ss fr, 0 <= vol ->
+  file_loop files free off vol = (ws, ss, fr) ->
+  exists rest, map (fun x => (x, vol)) files = wfile_pairs ws ++ sample_pairs ss ++ rest
+               /\ (length rest <= length files - 1)%nat
+               /\ (rest <> [] -> (fr = O /\ length ss = 1%nat)).
+Proof.
+  induction files; simpl; intros free off vol ws ss fr Hv H.
+  - inversion H; subst. exists []. simpl. repeat split; try reflexivity; try lia; congruence.
+  - destruct free.
+    + inversion H; subst. exists (map (fun x => (x, vol)) files). simpl. rewrite map_length. repeat split; try reflexivity; lia.
+    + destruct (file_loop files free off vol) as [[ws' ss'] fr'] eqn:E. inversion H; subst. clear H.
+      destruct (IHfiles _ _ _ _ _ _ Hv E) as (rest & Eq & Len & Nz). exists rest. simpl.
+      rewrite Z.max_l by lia. rewrite Eq. repeat split; try assumption; try reflexivity.
+      all: try (simpl in *; lia). all: now apply Nz.
+Qed.
+
+Lemma wfile_pairs_map : forall files vol, wfile_pairs (map (fun x => WFile x vol) files) = map (fun x => (x, vol)) files.
+Proof. induction files; simpl; intros; [reflexivity|]. now rewrite IHfiles. Qed.
+
+Lemma perm_interleave : forall (a b c d e f : list (Z * Z)),
+  Permutation ((a ++ b ++ c) ++ (d ++ e ++ f)) ((a ++ d) ++ (b ++ e) ++ (c ++ f)).
+Proof.
+  intros. rewrite <- !app_assoc. apply Permutation_app_head.
+  transitivity (b ++ d ++ c ++ e ++ f).
+  - apply Permutation_app_head. apply Permutation_app_swap_app.
+  - transitivity (d ++ b ++ c ++ e ++ f).
+    + apply Permutation_app_swap_app.
+    + apply Permutation_app_head. apply Permutation_app_head. apply Permutation_app_swap_app.
+Qed.
+
+Definition spare (vgs : list (Z * list hnote)) : nat :=
+  fold_right Nat.add O (map (fun vg => (length (group_files (snd vg)) - 1)%nat) vgs).
+
+(* THE SLOT RULE, for one time and all its volume groups, every number of free notes. *)
+Theorem plan_groups_spec : forall off vgs free ws ss,
+  (forall vg, In vg vgs -> 0 <= fst vg) ->
+  plan_groups off vgs free = (ws, ss) ->
+  (* as many notes are written as the sounds need, or all of them *)
+  length ws = Nat.min (total_need vgs) free
+  (* never more claps / finishes / whistles than the groups have; all of them when everything fits *)
+  /\ (nb 2 ws <= total_bit 2 vgs /\ nb 4 ws <= total_bit 4 vgs /\ nb 8 ws <= total_bit 8 vgs)%nat
+  /\ ((total_need vgs <= free)%nat ->
+        nb 2 ws = total_bit 2 vgs /\ nb 4 ws = total_bit 4 vgs /\ nb 8 ws = total_bit 8 vgs)
+  (* every (file, volume) written or sampled comes from the groups; what is lost ([rest]) is bounded by the
+     files beyond the first of each group, and is nothing when everything fits (then nothing is sampled either) *)
+  /\ exists rest, Permutation (group_pairs vgs) (wfile_pairs ws ++ sample_pairs ss ++ rest)
+                  /\ (length rest <= spare vgs)%nat
+                  /\ ((total_need vgs <= free)%nat -> rest = [] /\ ss = []).
+Proof.
+  induction vgs as [|[vol g] vgs IH]; intros free ws ss Hv H.
+  - simpl in H. inversion H; subst. unfold total_need, total_bit, nb. simpl. split; [reflexivity|]. split; [lia|]. split; [intros; lia|].
+    exists []. simpl. repeat split; auto.
+  - simpl in H.
+    destruct (default_loop _ (count_bit 2 g) (count_bit 4 g) (count_bit 8 g) free vol) as [w1 free1] eqn:E1.
+    destruct (file_loop (group_files g) free1 off vol) as [[w2 s2] free2] eqn:E2.
+    destruct (plan_groups off vgs free2) as [w3 s3] eqn:E3.
+    inversion H; subst; clear H.
+    assert (Hvol : 0 <= vol) by (apply (Hv (vol, g)); now left).
+    apply default_loop_spec in E1 as (L1 & F1 & P1 & B2 & B4 & B8).
+    pose proof (file_loop_len _ _ _ _ _ _ _ E2) as (L2 & F2 & C2 & C4 & C8).
+    destruct (file_loop_prefix _ _ _ _ _ _ _ Hvol E2) as (rest2 & Eq2 & Len2 & Nz2).
+    destruct (IH free2 w3 s3 (fun vg I => Hv vg (or_intror I)) E3) as (L3 & (D2 & D4 & D8) & Fit3 & rest3 & Pm3 & Len3 & Fits3).
+    set (k := Nat.max (count_bit 2 g) (Nat.max (count_bit 4 g) (count_bit 8 g))) in *.
+    unfold total_need, total_bit, spare in *. simpl. fold (need g).
+    assert (Hneed : need g = (k + length (group_files g))%nat) by reflexivity.
+    rewrite !app_length, !nb_app, !wfile_pairs_app, P1. simpl.
+    split; [lia|]. split; [lia|]. split.
+    + intro Hfit. assert (Hfit3 : (fold_right Nat.add 0%nat (map (fun vg => need (snd vg)) vgs) <= free2)%nat) by lia.
+      destruct (Fit3 Hfit3) as (G2 & G4 & G8). lia.
+    + exists (rest2 ++ rest3). split; [|split].
+      * unfold group_pairs in *. simpl. rewrite Eq2.
+        eapply Permutation_trans; [apply Permutation_app_head; exact Pm3|].
+        unfold sample_pairs. rewrite map_app. apply perm_interleave.
+      * rewrite app_length. lia.
+      * intro Hfit. assert (Hfit3 : (fold_right Nat.add 0%nat (map (fun vg => need (snd vg)) vgs) <= free2)%nat) by lia.
+        destruct (Fits3 Hfit3) as (-> & ->).
+        assert (Hf : (length (group_files g) <= free1)%nat) by lia.
+        rewrite (file_loop_fits _ _ off vol Hf) in E2. inversion E2; subst.
+        simpl in Eq2. rewrite wfile_pairs_map, Z.max_l in Eq2 by lia.
+        rewrite <- (app_nil_r (map _ (group_files g))) in Eq2 at 1. apply app_inv_head in Eq2. subst rest2. auto.
+Qed.
